@@ -387,6 +387,6 @@ func init() {
 		Shape: shapePol,
 		Real:  append([]string{"credentials matcher (credentials.go), setBasicAuth, upstreamProxyURL/pacProxy credential attachment, hop-by-hop modifier, dialvia proxy authorization, SOCKS5 client auth"}, realForwarder...),
 		Stub:  stubCommon,
-		Rule:  "credential tables drawn from exact / *:port / host:* / *:* entries (overlapping), upstream http/https/socks5 proxy static (with or without userinfo) or PAC-selected, optional basic auth on the proxy itself, optional MITM; every secret is a unique token. Clients send Proxy-Authorization (mixed case, repeated, Connection-nominated) and sometimes their own Authorization (Bearer/Basic/Digest). Oracle: per recorded arrival (after TLS termination, also inside tunnels) the exact expected Proxy-Authorization / Authorization under the documented precedence, plus raw scans of every node's received bytes for every secret in clear and base64. Non-trivial = every request answered and judged.",
+		Rule:  "credential tables drawn from exact / *:port / host:* / *:* entries (overlapping), upstream http/https/socks5 proxy static (with or without userinfo) or PAC-selected, optional basic auth on the proxy itself, optional MITM; every secret is a unique token. Clients send Proxy-Authorization (mixed case, repeated, Connection-nominated) and sometimes their own Authorization (Bearer/Basic/Digest). Oracle: per recorded arrival (after TLS termination, also inside tunnels) the exact expected Proxy-Authorization / Authorization under the documented precedence, plus raw scans of every node's received bytes for every secret in clear and base64. Non-trivial = every request answered and judged. Later additions: an IPv6-literal origin, a TLS listener, upstream proxies that reset the first connections they accept, a second proxy port with its own entry.",
 	})
 }
